@@ -22,6 +22,7 @@ from liquid.builtin.expressions import KeywordArgument
 from liquid.builtin.expressions import Path
 from liquid.builtin.expressions import StringLiteral
 from liquid.builtin.output import OutputNode
+from liquid.exceptions import LiquidTypeError
 from liquid.exceptions import TranslationSyntaxError
 from liquid.limits import to_int
 from liquid.messages import MESSAGES
@@ -125,10 +126,16 @@ class TranslateNode(Node, TranslatableTag):
 
     def resolve_translations(self, context: RenderContext) -> Translations:
         """Return a translations object from the current render context."""
-        return cast(
-            Translations,
-            context.resolve(self.translations_var, default=self.default_translations),
+        translations = context.resolve(
+            self.translations_var, default=self.default_translations
         )
+        if not hasattr(translations, "gettext"):
+            raise LiquidTypeError(
+                f"expected a translations object, "
+                f"found {type(translations).__name__}",
+                token=self.token,
+            )
+        return cast(Translations, translations)
 
     def resolve_count(
         self,
